@@ -334,6 +334,9 @@ def monitor(c, r):
     if not drop_policy and g("peer_diff") != -1:
         bad.append("T1: the peer's byte stream is not a prefix of the accepted payloads concatenated in accepted order: first difference at byte %d (peer read %d, accepted %d)"
                    % (g("peer_diff"), g("peer_rx"), g("exp_total")))
+    taken = sum(int(t[2:]) for sg in r["segs"] for t in sg.split(";") if t.startswith("S:"))
+    if taken != len(r["acc"]) and g("closed_cb") > 0:
+        bad.append("T5: enqueue() accepted %d commands but process()/shutdownDrain took %d from the queue (a command was lost or duplicated)" % (len(r["acc"]), taken))
     if g("moved") and not drop_policy:
         bad.append("T1: an SSL_write that had answered WANT_READ/WANT_WRITE was retried with a different buffer or a shorter length (%d time(s))" % g("moved"))
     if g("dlv_diff") != -1:
